@@ -89,3 +89,15 @@ check("C05",
       "side a corner touches is derived geometrically",
       "symbolic execution of the real Python code with z3 (symx), insertion order as solver variable, concrete replay",
       "DESIGN.md 4/C05")
+check("C07",
+      "Bounded symbolic execution of Face(points, edges)/invert/shift, Loft, add_side_edge, Operation.edges, "
+      "Frame.get_all_beams, EdgeList.add_from_operation/add/find, the edge factory, Edge.is_valid, ArcEdgeBase.is_valid, "
+      "Spline/PolyLine/Arc/Angle/Project edge items and the real vertices/edges section writers, for every edge kind on "
+      "all 12 edge positions (fork on value) with symbolic curve points and corner jitter; the edges section is read "
+      "back by a harness parser and compared with the intent recorded at construction (polyline equality in either "
+      "direction, arc point, angle-arc side, Edge.length, one entry per geometric edge, omission of straight/zero-length/"
+      "collinear edges with a symbolic off-chord deviation).",
+      "Mesh.write's grading is skipped (sections come from the real list writers after the real assemble); angle edges on a "
+      "concrete cube with a pinned sector angle; <= 2 interior curve points; curve-snapped edges on analytic curves outside",
+      "symbolic execution of the real Python code with z3 (symx), read-back parser, concrete replay",
+      "DESIGN.md 4/C07")
